@@ -71,19 +71,16 @@ def run(ctx):
     if unreached:
         raise tlc.MachineryError("vacuity witnesses not reachable: %s" % unreached)
     ctx.note("vacuity_witnesses_reached", len(WITNESSES))
-    lcfg = tlc.write_cfg(os.path.join(ctx.scratch, "live.cfg"), spec="FairSpec", constants=consts(2 if ctx.quick else 3),
-                         properties=["Terminates"])
-    lres = tlc.check_model("Concurrent", lcfg, ctx.scratch, timeout=1500, workers=4)
-    ctx.add_tlc(lres, "termination MaxN=%d" % (2 if ctx.quick else 3))
-    if lres.violation:
-        spec_violation(ctx, lres, "termination")
-        return
-
     # ---- spec -> code: every edge of the state graph
     small = 2 if ctx.quick else 3
-    gcfg = tlc.write_cfg(os.path.join(ctx.scratch, "graph.cfg"), constants=consts(small), invariants=INV)
+    # (the same run checks deadlock freedom and termination: <>Terminal under weak fairness of Next)
+    gcfg = tlc.write_cfg(os.path.join(ctx.scratch, "graph.cfg"), spec="FairSpec", constants=consts(small), invariants=INV,
+                         properties=["Terminates"])
     gres, nodes, edges, init = tlc.state_graph("Concurrent", gcfg, ctx.scratch, timeout=1800)
-    ctx.add_tlc(gres, "graph MaxN=%d" % small)
+    ctx.add_tlc(gres, "graph + termination MaxN=%d" % small)
+    if gres.violation:
+        spec_violation(ctx, gres, "MaxN=%d" % small)
+        return
     walks = covering_walks(edges, init)
     covered = set()
     for w in walks:
